@@ -263,12 +263,19 @@ def run(cx, chk):
         total += traced
         untraced_total += len(untraced)
         chk.count("C19.pair", traced)
-        if untraced:
-            chk.note("%s: rule functions without trace calls (must be @char/@extern): %s" % (inst.name, untraced))
+        # oracle: exactly the @char / @extern rules of the grammar text are untraced
+        g = cx.grammar_of(inst)
+        if g is None:
+            chk.violation("C19.pair", "%s grammar-unreadable" % inst.name, "cannot read the grammar text of instance %s to decide which rules must be traced" % inst.name)
+        else:
+            want = sorted("parse_" + r.name for r in g.rules if r.kind in ("char", "extern"))
+            if sorted(untraced) != want:
+                chk.violation("C19.pair", "%s untraced-set" % inst.name,
+                              "rule functions without trace entry/exit are %s but the grammar's @char/@extern rules are %s" % (sorted(untraced), want))
+            else:
+                chk.ok("C19.pair", "%s untraced = @char/@extern" % inst.name, {"instance": inst.name, "untraced": want})
     chk.floor("C19.pair", "traced rule wrappers", total, 259)
     chk.extra["untraced_rule_fns"] = untraced_total
-    if untraced_total > 9 and cx.tier == "quick":
-        chk.violation("C19.pair", "untraced-count", "%d rule functions without trace calls; 9 (@char/@extern) expected" % untraced_total)
     check_level(cx, chk, cx.runtime, "runtime")
     if cx.runtime_nodefault is not None:
         check_level(cx, chk, cx.runtime_nodefault, "runtime(no-default-features)")
